@@ -74,6 +74,8 @@ def make_spec(run_seed, tier, prop, choice_weights=None, forced_prob=0.0, branch
         spec["warmup"] = {"text": warmup, "seed": rs.randrange(1000)}
     if text.startswith("{[]") and text.count("{") == 1 and text.rstrip().endswith("|") and "[]}" in text and rnd.random() < 0.35:
         spec["entry"] = "stochastic"  # the same string through the user-facing Stochastic class
+    if rs.random() < 0.12:
+        spec["again"] = rs.randrange(1 << 40)  # a second, fully audited generation from the same parsed object
     if "entry" not in spec and rs.random() < 0.07:
         spec["entry"] = "staged"  # element by element through the copies handed out by Molecule.elements (genrun.py)
     if "hub" in tags:
@@ -191,6 +193,26 @@ def execute(spec, props=None):
     if isinstance(out.exc, WallTimeout):
         return {"harness_error": f"wall-clock watchdog fired on {text}", "violations": []}
     violations = list(out.violations)
+    if spec.get("again") is not None and out.mol_obj is not None and spec.get("entry", "molecule") == "molecule" and not violations:
+        # the parsed object is a sampler: a second generation from it is audited exactly like the first one
+        sched2 = dict(sched)
+        sched2["seed"] = spec["again"]
+        sched2["script"] = None
+        out2 = genrun.run_molecule(text, sched2, props=props, embed="stub", cap_mass=spec.get("cap_mass"), wall=90, ast=ast,
+                                   reuse_obj=out.mol_obj)
+        stats["second_generations"] = 1
+        if out2.harness_error:
+            return {"harness_error": out2.harness_error, "violations": []}
+        if not isinstance(out2.exc, WallTimeout):
+            for v in out2.violations:
+                v["msg"] = "[second generation from the same parsed object] " + v["msg"]
+                violations.append(v)
+            if out2.exc is not None and out.exc is None and "C06" in props and out2.phase != "parse":
+                inv = "no_termination_within_budget" if isinstance(out2.exc, BudgetExceeded) else ("target_draw_failed" if out2.draw_failed else "generation_raised")
+                violations.append({"property": "C06", "invariant": inv, "seq": None,
+                                   "msg": f"[second generation from the same parsed object] generation of a well-posed molecule did not complete: {out2.exc!r} on {text!r}"})
+                if out2.draw_failed or isinstance(out2.exc, DrawDiverges):
+                    out = out2  # the features of the failed draw identify the known findings
     feats = sorted(set(spec.get("tags", [])) | set(_exc_features(out)))
     if any(getattr(t, "h_shift", False) for t in ast.residues()):
         feats.append("explicit_H_before_attachment_atom")
